@@ -41,6 +41,13 @@ def rotateArg (inv : List (List α) → List (List α)) (R : List (List α)) (x 
 def rotate (f : List α → β) (inv : List (List α) → List (List α)) (R : List (List α)) (x : List α) :
     Option β := (rotateArg inv R x).map f
 
+/-- the stack `@translate(t) @rotate(R) @scale(f)` (outermost first): each wrapper hands its list to the
+next one, so the innermost function receives `scale⁻¹(rotate⁻¹(translate⁻¹ x))`. -/
+def stackArg (vector : List α) (minv : List (List α)) (factor : List α) (x : List α) : Option (List α) :=
+  match matVec minv (translateArg vector x) with
+  | none => none
+  | some y => scaleArg factor y
+
 /-- `noise.rand_funcs` (`tools.py:150-154`): one callable (or `None`) repeated for every objective,
 or a tuple with one entry per objective; the flag says "is a function" (not `None`). -/
 inductive NoiseSpec where
